@@ -18,6 +18,7 @@ import time
 from . import boot
 
 HERE = os.path.dirname(os.path.dirname(os.path.abspath(__file__)))
+OUT = os.environ.get("QV_OUT") or HERE      # evidence/ and replays/ go here (mutant runs use a scratch dir)
 PY = sys.executable
 ALL = ["C%02d" % i for i in range(1, 20)]
 
@@ -164,10 +165,10 @@ def conclude(mod, tier, seed, results, t0, replay=None, tmp=None, extra_cov=None
             inconclusive.append("observation floors not met: %s" % json.dumps(unmet))
     # violations vs known findings -----------------------------------------
     new, seen_known = [], collections.OrderedDict()
-    os.makedirs(os.path.join(HERE, "replays"), exist_ok=True)
+    os.makedirs(os.path.join(OUT, "replays"), exist_ok=True)
     if not replay:
         import glob
-        for old in glob.glob(os.path.join(HERE, "replays", "%s-%s-s%s-*.json" % (pid, tier, seed))):
+        for old in glob.glob(os.path.join(OUT, "replays", "%s-%s-s%s-*.json" % (pid, tier, seed))):
             os.remove(old)
     for v in violations:
         if v["tag"] in known_tags:
@@ -179,7 +180,7 @@ def conclude(mod, tier, seed, results, t0, replay=None, tmp=None, extra_cov=None
     printed = set()
     for v in new:
         name = "%s-%s-s%s-sh%s-i%s.json" % (pid, v["tier"], v["seed"], v["shard"], v["idx"])
-        path = os.path.join(HERE, "replays", name)
+        path = os.path.join(OUT, "replays", name)
         if path not in printed:
             with open(path, "w") as f:
                 json.dump(v, f, indent=1)
@@ -217,8 +218,8 @@ def conclude(mod, tier, seed, results, t0, replay=None, tmp=None, extra_cov=None
             "wall_s": round(time.time() - t0, 2),
             "violations": len(new),
         }
-        os.makedirs(os.path.join(HERE, "evidence"), exist_ok=True)
-        with open(os.path.join(HERE, "evidence", pid + ".json"), "w") as f:
+        os.makedirs(os.path.join(OUT, "evidence"), exist_ok=True)
+        with open(os.path.join(OUT, "evidence", pid + ".json"), "w") as f:
             json.dump(ev, f, indent=1, sort_keys=False)
     tops = ", ".join("%s=%d" % kv for kv in mon.most_common(6))
     print("%s tier=%s seed=%s evaluations=%d distinct_nontrivial=%d violations=%d known=%d wall=%.1fs monitors[%s]" % (
